@@ -188,6 +188,27 @@ return ((w[0], w[2] if w[0] == 'ok' else None), ('ok', ew))
                meta={'function': 'rbql_csv.CSVWriter.write/get_warnings', 'bounds': 'fields str of the stated lengths or None: %s' % (shape,)})
 
 
+def _lossy_list_obl(dlm, policy, timeout):
+    """A list-valued output field (e.g. ARRAY_AGG) is joined with the sub-array delimiter; a None INSIDE it is a None written to CSV."""
+    body = indent('''
+inner = [x0, x1]
+T = [[inner, y]]
+has_none = x0 is None or x1 is None or y is None
+has_dlm = any((v is not None and DLM in v) for v in (x0, x1, y))
+w = csvh.write_all(T, DLM, POLICY)
+ew = []
+if has_none:
+    ew.append('None values in output were replaced by empty strings')
+if has_dlm and POLICY in ('simple', 'whitespace'):
+    ew.append('Some output fields contain separator')
+return ((w[0], w[2] if w[0] == 'ok' else None), ('ok', ew))
+''')
+    params = [('x0', 'Optional[str]'), ('x1', 'Optional[str]'), ('y', 'Optional[str]')]
+    pre = ['%s is None or len(%s) <= 1' % (n, n) for n, _t in params]
+    src = harness('from vf import csvh\nDLM = %r\nPOLICY = %r\n' % (dlm, policy), params, pre, body)
+    return Obl('lossy_list_field[%s,%s]' % (policy, DN[dlm]), src, timeout=timeout, meta={'function': 'rbql_csv.CSVWriter.normalize_fields', 'bounds': 'record [[x0, x1], y], each str of length <= 1 or None'})
+
+
 def _shapes(total, maxrows=2, maxcols=2):
     res = []
     for nrows in range(1, maxrows + 1):
@@ -245,6 +266,8 @@ def obligations(tier, seed):
         for shape in lsh:
             obs.append(_lossy_obl(dlm, policy, shape, 200 if quick else 900))
         obs.append(_lossy_obl(dlm, policy, [(1, 1)], 200 if quick else 900, header_lens=(2, 1)))   # the header line is output too
+    for dlm, policy in ((',', 'simple'), (',', 'quoted'), (' ', 'whitespace')):
+        obs.append(_lossy_list_obl(dlm, policy, 200 if quick else 900))
     # D. multi-character delimiter under the quoted policies (broken before the fix recorded in known_findings.json: "fixed: property=C10 ...")
     for shape in ([[(1, 1)], [(2,)], [(1, 0), (1,)]] if quick else [[(1, 1)], [(2,)], [(1, 0), (1,)], [(2, 1)], [(1, 2)], [(1, 1, 1)], [(3,)], [(2, 2)]]):
         for pol in ('quoted', 'quoted_rfc'):
